@@ -869,6 +869,11 @@ fn expand_home(tokens: &mut types::Tokens) {
 }
 
 fn env_in_token(token: &str) -> bool {
+    env_in_tagged_token(token, false)
+}
+
+/// `quoted`: the token was written inside double quotes.
+fn env_in_tagged_token(token: &str, quoted: bool) -> bool {
     if libs::re::re_contains(token, r"\$\{?[\$\?]\}?") {
         return true;
     }
@@ -891,6 +896,11 @@ fn env_in_token(token: &str) -> bool {
         return false;
     }
 
+    // inside double quotes a single quote is an ordinary character: `"x='$A'"` is expanded
+    if quoted {
+        return true;
+    }
+
     // for cmd-line like `alias foo='echo $PWD'`
     let ptn_env = format!(r"='.*\$\{{?{}\}}?.*'$", ptn_env_name);
     !libs::re::re_contains(token, &ptn_env)
@@ -906,7 +916,7 @@ pub fn expand_env(sh: &Shell, tokens: &mut types::Tokens) {
             continue;
         }
 
-        if !env_in_token(token) {
+        if !env_in_tagged_token(token, sep == "\"") {
             idx += 1;
             continue;
         }
